@@ -307,6 +307,19 @@ class Repair(Suite):
                     res[str(mode)]["reset_id"] = df2["id"].tolist()
                 except Exception as e:  # noqa: BLE001
                     res[str(mode)] = {"exc": type(e).__name__, "msg": str(e)[:200]}
+        # the copying spellings (no trailing underscore): the same tables, and the frame handed in is left alone
+        try:
+            from swcgeom.core.swc_utils import link_roots_to_nearest, mark_roots_as_somas, reset_index
+
+            with warnings.catch_warnings():
+                warnings.simplefilter("ignore")
+                raw, _ = read_swc(io.StringIO(text), fix_roots=False, reset_index=False)
+                keep = raw.copy()
+                a1, a2, a3 = mark_roots_as_somas(raw), link_roots_to_nearest(raw), reset_index(raw)
+                res["copying"] = {"somas": a1["pid"].tolist(), "nearest": a2["pid"].tolist(), "reset_id": a3["id"].tolist(), "reset_pid": a3["pid"].tolist(),
+                                  "input_unchanged": bool(raw.equals(keep))}
+        except Exception as e:  # noqa: BLE001
+            res["copying"] = {"exc": type(e).__name__, "msg": str(e)[:200]}
         return res
 
     def lines(self, case, res):
@@ -363,6 +376,16 @@ class Repair(Suite):
             _, nc = components(n, pp)
             if nc != 1 or has_cycle(n, pp):
                 out.append((f"repair-not-a-tree/{mode}", f"fix_roots={mode}: result has {nc} component(s), cycle={has_cycle(n, pp)}: {rp}"))
+        c = res.get("copying", {})
+        if "exc" in c:
+            out.append(("copying-repair-raises", f"{c['exc']}: {c['msg']}"))
+        elif c:
+            if not c["input_unchanged"]:
+                out.append(("copying-repair-mutates", "mark_roots_as_somas / link_roots_to_nearest / reset_index changed the frame they were given"))
+            for nm, mode, key in (("somas", "somas", "pid"), ("nearest", "nearest", "pid"), ("reset_id", "False", "reset_id"), ("reset_pid", "False", "reset_pid")):
+                r = res[mode]
+                if "exc" not in r and c[nm] != r[key]:
+                    out.append((f"copying-repair-differs/{nm}", f"the copying spelling gives {c[nm]}, the reader with the same option gives {r[key]}"))
         return out[:3]
 
     def nontrivial(self, case, res):
